@@ -74,7 +74,7 @@ def run_text(row):
     return bad
 
 
-LEVEL_NAME = {1: "f%d", 2: "<lambda>", 3: "go", 4: "inner%d", 5: "gen%d", 6: "rec%d"}
+LEVEL_NAME = {1: "f%d", 2: "<lambda>", 3: "go", 4: "inner%d", 5: "gen%d", 6: "rec%d", 7: "modgen%d"}
 
 
 def chain_source(prog, exc):
@@ -96,6 +96,9 @@ def chain_source(prog, exc):
         elif k == 5:
             lines += ["", "_ns%d = {'nxt': %s}" % (idx, nxt), "exec(compile('def gen%d():\\n    return nxt()', '<generated-%d>', 'exec'), _ns%d)" % (idx, idx, idx),
                       "%s = _ns%d['gen%d']" % (name, idx, idx)]
+        elif k == 7:
+            lines += ["", "_nxt%d = %s" % (idx, nxt), "exec(compile('def modgen%d():\\n    return _nxt%d()', '<string>', 'exec'), globals())" % (idx, idx),
+                      "%s = modgen%d" % (name, idx)]
         else:
             lines += ["", "def rec%d(n=1):" % idx, "    if n:", "        return rec%d(0)" % idx, "    return %s()" % nxt, "%s = rec%d" % (name, idx)]
         nxt = name
@@ -143,10 +146,10 @@ def run_chain(row, tmpdir, counter):
         for idx, k in enumerate(prog, 1):
             nm = LEVEL_NAME[k] % idx if "%" in LEVEL_NAME[k] else LEVEL_NAME[k]
             for _ in range(2 if k == 6 else 1):
-                want.append((nm, k != 5))
+                want.append((nm, k not in (5, 7)))
         want = [("entry", True)] + want + [("raiser", True)]
         model_got = [(g[2], bool(g[3])) for g in got[1:]]
-        if model_got != want or [list(x) for x in [(f[0], f[1]) for f in row["frames"]]] != [[k, k != 5] for k in prog for _ in range(2 if k == 6 else 1)]:
+        if model_got != want or [list(x) for x in [(f[0], f[1]) for f in row["frames"]]] != [[k, k not in (5, 7)] for k in prog for _ in range(2 if k == 6 else 1)]:
             bad.append(("chain", "frames-differ-from-model", {"got": model_got, "model": want}))
         interp = "".join(traceback.format_exception(et, ev, tb))
         if strip_markers(formatted) != strip_markers(interp):
